@@ -156,6 +156,17 @@ func (e *Engine) VerifyUnit(c *Contract) (r *FnRun) {
 	if len(c.Ensures) > 0 {
 		r.addCover("returns-reachable", retGuard)
 	}
+	// Vacuity guard for call logs: a tracked callee that has a call site in this code but for which no call was ever
+	// logged (the call sits in code the engine abstracted away) makes every clause over its log vacuous.
+	{
+		seen := map[string]bool{}
+		for _, tr := range c.Tracks {
+			if r.staticAlias[tr.Alias] && !r.loggedAlias[tr.Alias] && !seen[tr.Alias] {
+				seen[tr.Alias] = true
+				r.addObl("vacuity", "the-tracked-call-"+tr.Alias+"-is-executed", False, "track "+tr.Callee+" as "+tr.Alias+"   [the callee has a call site in this function, but the symbolic execution never reached it: clauses over calls("+tr.Alias+") would be vacuous]", nil, fn.Pos())
+			}
+		}
+	}
 	for ord := range c.Loops {
 		if !fr.loopsUsed[ord] {
 			r.Unsupported = append(r.Unsupported, fmt.Sprintf("contract %s: loop %d does not exist in the function (%s:%d)", c.Name, ord, c.File, c.Line))
@@ -789,7 +800,6 @@ func (r *FnRun) preRegisterTracksIn(fr *Frame, root *ssa.Function) {
 	if c == nil || len(c.Tracks) == 0 {
 		return
 	}
-	seenFn := map[*ssa.Function]bool{}
 	var visit func(fn *ssa.Function, depth int)
 	visit = func(fn *ssa.Function, depth int) {
 		for _, b := range fn.Blocks {
@@ -810,22 +820,17 @@ func (r *FnRun) preRegisterTracksIn(fr *Frame, root *ssa.Function) {
 					continue
 				}
 				names := fr.calleeNames(cc)
-				matched := false
-				for _, tr := range c.Tracks {
-					if nameMatches(names, tr.Callee) {
-						matched = true
-					}
-				}
-				if !matched && depth < 2 {
-					// a small module wrapper that will be inlined may contain the tracked call
-					if sc := cc.StaticCallee(); sc != nil && sc.Pkg != nil && len(sc.Blocks) > 0 && len(sc.Blocks) <= 8 && r.Eng.InModule(sc.Pkg.Pkg) && !seenFn[sc] {
-						seenFn[sc] = true
-						visit(sc, depth+1)
-					}
-				}
 				for _, tr := range c.Tracks {
 					if !nameMatches(names, tr.Callee) {
 						continue
+					}
+					if r.staticAlias == nil {
+						r.staticAlias = map[string]bool{}
+					}
+					// only call sites the symbolic execution must reach count: the body itself and the bodies of its
+					// range-over-func loops (a literal started with go, deferred or handed to a library may never run inline)
+					if _, isGo := in.(*ssa.Go); !isGo && (fn == root || fn == fr.Fn || fn.Synthetic == "range-over-func yield") {
+						r.staticAlias[tr.Alias] = true
 					}
 					sig := cc.Signature()
 					for n := 1; n <= 2; n++ {
